@@ -121,3 +121,12 @@ P("C18", "srcfacts+mirfacts+rules",
   "with the configuration; the table is only accessed by exact-key get; the qualification filter keeps string/number/boolean; both "
   "generators remove mapped names from the declared set.  By compositionality of the visitors this covers every nesting depth and all five sites.",
   "mapping targets outside {string, number, boolean} and path-qualified source spellings are not decided", a=True, b=True)
+
+P("C11", "srcfacts+mirfacts+rules",
+  "static analysis: path-wise string-shape extraction (SV) of the constraint builders over every (min, max, message) combination, escaper chain order (TABLE), applicability per constructor (SV), argument pairing (FLOW over MIR), substring-search sites of the attribute parser (CALLS)",
+  "Rendering side decided exhaustively: for each of the 2×6 bound/message combinations the appended text is exactly .min/.max with the homonymous "
+  "bound hole and an escaped message; .email()/.url() under exactly their flags; inactive paths return the schema unchanged; arrays/strings/numbers "
+  "get the right validator, Option forwards it, container elements and parameters are rendered without; build_schema pairs structure and "
+  "validators of the same field.  Parsing side decided structurally only: each parsing function that recognises syntax by substring search "
+  "on the stringified tokens is reported (4 recorded findings with witnesses); numeric re-parsing exactness is not claimed.",
+  "the statement's rendering table is the oracle; Zod's runtime is trusted", a=True, b=True)
